@@ -8,9 +8,11 @@ to the model and the hypothesis of the theorems (it returns a partition into non
 Monitor: the property itself on the implementation's observations - decode(encode(t)) == t, ids inside the
 vocabulary, a planted special-token literal becomes exactly that token's id.
 """
+import hashlib
 import json
 import os
 import re
+import threading
 
 from lib import vlib
 from lib.vlib import cq_bytes, cq_list, cq_bool
@@ -463,8 +465,8 @@ def gen(ctx):
                 add(v, a + sp + b, "special-literal", group=g + ":t:" + sp.encode().hex())
     # the pre-tokeniser alone: real regexp2 split of the patterns of the current sources vs the modelled splitter
     pats = repo_patterns()
-    roles = [(pats.get("model/models/llama/model.go", LLAMA_PRE), 0, PT_ALPHA[:16] if q else PT_ALPHA),
-             (pats.get("model/models/mistral3/model_text.go", TEKKEN_PRE), 1, PT_ALPHA[:13] if q else PT_ALPHA)]
+    roles = [(pats.get("model/models/llama/model.go", LLAMA_PRE), 0, PT_ALPHA[:13] if q else PT_ALPHA),
+             (pats.get("model/models/mistral3/model_text.go", TEKKEN_PRE), 1, PT_ALPHA[:11] if q else PT_ALPHA)]
     if pats.get("model/models/mllama/model.go", roles[0][0]) != roles[0][0]:
         roles.append((pats["model/models/mllama/model.go"], 0, PT_ALPHA[:10]))
     if pats.get("model/process_text_test.go", roles[0][0]) != roles[0][0]:
@@ -537,6 +539,121 @@ def gen(ctx):
                 whole += pb + (seq[n] if n < len(seq) else b"")
             add(v, whole, "multi-special", group="%s:t:%s" % (g, ",".join(x.hex() for x in seq)))
     return vocabs, cases
+
+
+# ------------------------------------------------------------------ long inputs and idle time (round-trip monitor only)
+
+def long_texts(rng, q):
+    """(class, text): whitespace-free multi-byte runs whose 4096k / 16384k / 65536k byte offsets fall at every phase of a
+    character, long whitespace / digit / word runs.  No special-token literal, no U+2581, no NUL."""
+    out = []
+    chars = {2: ["é", "Ж", "ע", "ω"], 3: ["中", "あ", "ท", "한", "語", "ก"], 4: ["\U00020000", "\U0002A6D6", "\U0001F600", "\U00010348"]}
+    kib = 1024
+    for w in (2, 3, 4):
+        for phase in range(w):
+            n = (20 if q else 70) * kib
+            body = "".join(rng.choice(chars[w]) for _ in range(n // w))
+            out.append(("long-multibyte-w%d" % w, "a" * phase + body))
+    # mixed widths: the phase drifts along the text; crosses 16 KiB / 64 KiB windows many times
+    for n in ([40, 72] if q else [40, 72, 136, 200, 200]):
+        allc = chars[2] + chars[3] * 3 + chars[4]
+        out.append(("long-mixed", "".join(rng.choice(allc) for _ in range(n * kib // 3))))
+    # CJK sentences with rare spaces (whitespace-free windows of > 16 KiB between them)
+    t = []
+    for _ in range(3 if q else 6):
+        t.append("".join(rng.choice(chars[3]) for _ in range(rng.randint(5800, 7000))))
+    out.append(("long-cjk-sparse-space", " ".join(t)))
+    for ws, n in ([(" ", 10000), ("\t", 30000), ("\x0c", 20000), (" \n", 20000), (" ", 100000)] if q else
+                  [(" ", 10000), ("\t", 30000), ("\x0c", 20000), (" \n", 50000), (" ", 100000), (" ", 1000000), ("\t ", 300000)]):
+        out.append(("long-whitespace", "x" + ws * n + "y"))
+        out.append(("long-whitespace", ws * (n // 2)))
+    out.append(("long-digits", "1234567890" * (2000 if q else 20000)))
+    out.append(("long-digits", "٣٤٥" * 7000))
+    out.append(("long-word", "a" * (50000 if q else 200000)))
+    out.append(("long-word", "ab" * 30000 + " " + "Zz" * 9000))
+    out.append(("long-word", "".join(rng.choice("abcdeilnost") for _ in range(40000))))
+    out.append(("long-punct", "!?." * 12000 + "\n" * 5000))
+    return out
+
+
+def gen_long(ctx, vocabs):
+    q = ctx.quick()
+    texts = long_texts(ctx.rng, q)
+    want = ["vb0", "vb2", "vs0", "vl"] if q else [v.name for v in vocabs if v.complete]
+    cases = []
+    for v in vocabs:
+        if v.name not in want or not v.complete:
+            continue
+        for k, t in texts:
+            if v.sparse and k == "long-whitespace" and len(t) > 300000:
+                continue
+            cases.append({"op": "rt", "vocab": v.name, "text": t.encode("utf-8").hex(), "klass": k})
+    return cases
+
+
+def idle_cases(vocabs, q=True):
+    """encode, stay idle for 4.5 s, encode again (a text with a long whitespace run, a long word, CJK)"""
+    v = [x for x in vocabs if x.name == "vb0"][0]
+    vs = [x for x in vocabs if x.name == "vs0"][0]
+    # after the idle period the FIRST regexp2 scan is a long one (a whitespace run of 3e6: several hundred ms)
+    texts = ["hello  world", " " * 3000000 + "y\n\n" + "中文" * 500 + " end", "  \t\t  " * 300 + "tail", "a" * 3000 + " b"]
+    cs = [v.setup_line(), vs.setup_line(), {"op": "rt", "vocab": v.name, "text": texts[0].encode().hex(), "klass": "idle-before"},
+          {"op": "rt", "vocab": vs.name, "text": texts[0].encode().hex(), "klass": "idle-before"}, {"op": "sleep", "ms": 4500}]
+    for t in texts[1:]:
+        cs.append({"op": "rt", "vocab": v.name, "text": t.encode().hex(), "klass": "idle-after"})
+    for t in texts[2:]:
+        cs.append({"op": "rt", "vocab": vs.name, "text": t.encode().hex(), "klass": "idle-after"})
+    if not q:
+        # a single match that runs for more than a second (no idle period needed): pre-tokeniser only
+        cs.append({"op": "rt", "vocab": v.name, "text": ("x" + " " * 14000000 + "y").encode().hex(), "klass": "long-whitespace-huge", "split_only": True})
+    return cs
+
+
+def judge_long(ctx, vby, cases, obs, binp):
+    """monitors on the summarised round trips: Decode(Encode(t)) == t, ids inside the vocabulary, the real split is a partition"""
+    nbad = 0
+    for c, o in zip(cases, obs):
+        if c["op"] != "rt":
+            continue
+        v = vby[c["vocab"]]
+        tb = bytes.fromhex(c["text"])
+        ctx.note_case({"v": v.name, "long": hashlib.sha1(tb).hexdigest(), "k": c["klass"]}, o.get("n_ids", 0) > 1, v.kind + ":" + c["klass"],
+                      sample={"case": {"vocab": v.name, "klass": c["klass"], "text_len": len(tb), "text_head": repr(tb[:24])}, "impl": o})
+        ctx.extra["long_ms_max"] = max(ctx.extra.get("long_ms_max", 0), o.get("ms", 0))
+        if "panic" in o or "enc_err" in o or "dec_err" in o or "harness_error" in o:
+            ctx.violation({"family": v.kind, "class": "encode-failed", "cause": "long-text"}, "Encode/Decode failed on a %d-byte %s text: %s" % (len(tb), c["klass"], o), {"case_len": len(tb), "klass": c["klass"], "impl": o})
+            continue
+        if not o.get("ids_in_range", True):
+            ctx.violation({"family": v.kind, "class": "id-out-of-vocab"}, "Encode of a %d-byte %s text produced an id outside the vocabulary" % (len(tb), c["klass"]), {"impl": o})
+        if v.kind == "bpe" and o.get("split_ok") is False:
+            nbad += 1
+            if nbad <= 2:
+                ctx.violation({"family": "bpe", "class": "pretok-not-partition", "cause": c["klass"]},
+                              "the real pre-tokeniser split of a %d-byte %s text (%r...) is not a partition of the text (its pieces total %d bytes): text is dropped or altered" % (
+                                  len(tb), c["klass"], tb[:16], o.get("split_len", -1)), {"vocab": v.name, "klass": c["klass"], "text_len": len(tb), "text_head_hex": tb[:64].hex(), "impl": o})
+        if o.get("ok") is False:
+            # shrink: the shortest failing prefix among a ladder of prefixes (one batched harness run)
+            short = None
+            if not c["klass"].startswith("idle"):
+                try:
+                    text = tb.decode("utf-8")
+                    L = len(text)
+                    lens = sorted(set(max(1, L * i // 16) for i in range(1, 16)) | set(x for x in (1366, 2731, 5462, 5463, 8193, 16385, 21846) if x < L))
+                    cs = [{"op": "rt", "vocab": v.name, "text": text[:n].encode().hex()} for n in lens]
+                    ob, _ = ctx.run_jsonl(binp, [v.setup_line()] + cs, args=[vlib.REPO])
+                    for n, oo in zip(lens, (ob or [])[1:]):
+                        if oo.get("ok") is False:
+                            short = (n, oo)
+                            break
+                except Exception:
+                    pass
+            ctx.violation({"family": v.kind, "class": "roundtrip", "cause": "long-text" if not c["klass"].startswith("idle") else "after-idle"},
+                          "%s vocabulary %s: Decode(Encode(t)) != t for a %d-byte %s text (%r...): decoded %d bytes, first difference at byte %s (decoded ...%s..., text ...%s...)%s" % (
+                              v.kind, v.name, len(tb), c["klass"], tb[:16], o.get("dec_len", -1), o.get("diff_at"), o.get("dec_snip"), o.get("text_snip"),
+                              "; shortest failing prefix tried: %d characters" % short[0] if short else ""),
+                          {"vocab": v.name, "klass": c["klass"], "text_len": len(tb), "text_head_hex": tb[:96].hex(), "impl": o,
+                           "shortest_failing_prefix_chars": short[0] if short else None, "prefix_impl": short[1] if short else None,
+                           "how_to_rebuild": "props/c20.py long_texts(rng seeded by VERIF_SEED) class %s" % c["klass"]})
 
 
 # ------------------------------------------------------------------ monitor
@@ -761,7 +878,30 @@ def run(ctx, only=None):
         cases = only(vocabs)
     vby = {v.name: v for v in vocabs}
     setup = [v.setup_line() for v in vocabs]
+    side = {}
+    if only is None:
+        # long inputs and the idle case run in their own harness processes, concurrently with the main one
+        lcases = gen_long(ctx, vocabs)
+        lsetup = [v.setup_line() for v in vocabs if any(c["vocab"] == v.name for c in lcases)]
+        icases = idle_cases(vocabs, ctx.quick())
+
+        def side_run(key, cs):
+            side[key] = ctx.run_jsonl(binp, cs, args=[vlib.REPO], timeout=1500)
+        th = [threading.Thread(target=side_run, args=("long", lsetup + lcases)), threading.Thread(target=side_run, args=("idle", icases))]
+        for t in th:
+            t.start()
     obs, err = ctx.run_jsonl(binp, setup + cases, args=[vlib.REPO])
+    if only is None:
+        for t in th:
+            t.join()
+        for key, cs, skip in (("long", lsetup + lcases, len(lsetup)), ("idle", icases, 0)):
+            so, se = side.get(key, (None, "not run"))
+            okk = so is not None and len(so) == len(cs)
+            ctx.obligation("harness c20 answered every %s case" % key, okk, str(se))
+            if not okk:
+                ctx.proof_failures.append({"obligation": "correspondence: harness c20 did not answer every %s case" % key, "detail": str(se)})
+                continue
+            judge_long(ctx, vby, cs, so, binp)
     if obs is None or len(obs) != len(setup) + len(cases):
         ctx.obligation("harness c20 answered every case", False, str(err))
         ctx.proof_failures.append({"obligation": "correspondence: harness c20 did not answer every case", "detail": str(err)})
